@@ -83,6 +83,20 @@ def route (tbl : Table) (stanzaNS : String) (n : Name) : Route :=
       (if n.loc == "iq" then .iqRouter else if n.loc == "message" then .msgRouter else .presRouter)
     else .nop
 
+/-! ### the defaults -/
+
+inductive IqOutcome
+  | handler (p : Pattern)   -- a registered IQ handler runs
+  | fallback                -- `iqFallback` writes a service-unavailable error reply
+  | nothing                 -- `iqFallback` returns without writing
+  deriving DecidableEq, Repr
+
+/-- what `iqRouter` does with an IQ of type `typ` whose payload element is `n` -/
+def iqDispatch (tbl : Table) (typ : String) (n : Name) : IqOutcome :=
+  match lookup tbl .iq typ n with
+  | some p => .handler p
+  | none => if typ == "error" || typ == "result" then .nothing else .fallback
+
 /-! ### `forChildren`: per-child dispatch with the replay buffer -/
 
 /-- a `bufReader` over the stanza: tokens already read (`buf`) and tokens still in the
